@@ -832,7 +832,13 @@ def r_ret(ctx):
                 msg = "`%s` is not prune(symmetrize(decomposition of objective - combination))" % dname
         else:
             msg = "the returned name `%s` is defined by %s" % (name, [norm_stmt(s)[:50] for s in defs])
-    ctx.ob("R-RET", "PEP.%s::returns the constant of the identity" % rec.name, ok, msg, loc(rec, rets[0] if rets else rec))
+    if not ok and ("reconstruction",) not in ctx.program_ok:
+        from . import feasprog
+        try:
+            feasprog.r_sign_program(ctx) if not getattr(ctx, "_feasprog_done", False) else None
+        except AnalysisError:
+            pass
+    ctx.ob_or_program(("reconstruction",), "R-RET", "PEP.%s::returns the constant of the identity" % rec.name, ok, msg, loc(rec, rets[0] if rets else rec))
 
 
 def _first_solve_value(root):
